@@ -77,6 +77,34 @@ pub fn history() -> impl Strategy<Value = History> {
     (prop_oneof![heavy, okish], end()).prop_map(|(ops, end)| History { ops, end })
 }
 
+/// The same histories decoded from bytes (for the coverage-guided driver).
+pub fn history_from(d: &mut vmodel::dec::D) -> History {
+    let n = d.below(24);
+    let okish = d.bool();
+    let ops = (0..n)
+        .map(|_| {
+            let w: [usize; 8] = if okish { [1, 0, 6, 1, 4, 0, 3, 4] } else { [3, 1, 3, 2, 2, 2, 2, 3] };
+            match d.weighted(&w) {
+                0 => Op::Push,
+                1 => Op::PushBundle(2 + d.below(2) as u8),
+                2 => Op::HandleOk(d.below(65536) as u16),
+                3 => Op::HandleErr,
+                4 => Op::HandleInOk(d.below(65536) as u16),
+                5 => Op::HandleInErr,
+                6 => Op::Extend(if okish { 0 } else { d.below(4) as u8 }),
+                _ => Op::Checkpoint,
+            }
+        })
+        .collect();
+    let end = match d.weighted(&[3, 3, 2, 2]) {
+        0 => End::Finish,
+        1 => End::FinishWith(d.below(65536) as u16),
+        2 => End::IntoInner,
+        _ => End::Drop,
+    };
+    History { ops, end }
+}
+
 fn lbl(n: usize) -> String {
     format!("e{}", n)
 }
@@ -384,15 +412,44 @@ fn classify(ctx: &Ctx, h: &History, recording_ops: usize, checkpoints: usize, ho
 /// accumulator alive. If `Drop` panics too the process aborts (SIGABRT); otherwise the outer
 /// catch_unwind sees the first panic and we exit 0.
 pub fn child(encoded: &str) -> ! {
-    let n: usize = encoded.parse().unwrap_or(0);
+    // "<n>" or "<n>:<mode>": n recorded errors, built in one of several ways
+    let (n, mode) = match encoded.split_once(':') {
+        Some((a, b)) => (a.parse().unwrap_or(0), b.parse().unwrap_or(0)),
+        None => (encoded.parse().unwrap_or(0), 0usize),
+    };
+    let n: usize = n;
     std::panic::set_hook(Box::new(|_| {}));
     let r = std::panic::catch_unwind(move || {
         let mut acc = Error::accumulator();
-        for i in 0..n {
-            acc.push(Error::custom(lbl(i)));
-        }
-        if n % 2 == 1 {
-            let _ = acc.handle(Ok::<u8, Error>(1));
+        match mode {
+            // an accumulator handed back by a successful checkpoint, then n pushes
+            2 => {
+                let _ = acc.handle(Ok::<u8, Error>(1));
+                acc = acc.checkpoint().expect("nothing recorded yet");
+                for i in 0..n {
+                    acc.push(Error::custom(lbl(i)));
+                }
+            }
+            // everything recorded by one extend
+            3 => acc.extend((0..n).map(|i| Error::custom(lbl(i)))),
+            // recorded through handle / handle_in
+            4 => {
+                for i in 0..n {
+                    if i % 2 == 0 {
+                        let _ = acc.handle(Err::<u8, Error>(Error::custom(lbl(i))));
+                    } else {
+                        let _ = acc.handle_in(|| Err::<u8, Error>(Error::custom(lbl(i))));
+                    }
+                }
+            }
+            _ => {
+                for i in 0..n {
+                    acc.push(Error::custom(lbl(i)));
+                }
+                if mode == 1 || n % 2 == 1 {
+                    let _ = acc.handle(Ok::<u8, Error>(1));
+                }
+            }
         }
         panic!("outer panic with live accumulator");
         #[allow(unreachable_code)]
@@ -413,17 +470,21 @@ fn unwind_probes(ctx: &Ctx, count: usize) -> bool {
     for n in 0..count {
         ctx.eval();
         let recorded = n % 9;
+        let mode = (n / 9) % 5;
         let out = std::process::Command::new(&exe)
             .arg("c05-child")
-            .arg(recorded.to_string())
+            .arg(format!("{}:{}", recorded, mode))
             .output()
             .expect("spawn child");
         let h = History {
             ops: vec![Op::Push; recorded],
             end: End::DropDuringUnwind,
         };
-        ctx.nontrivial(&(recorded, "unwind"));
+        ctx.nontrivial(&(recorded, mode, "unwind"));
         ctx.class("end:DropDuringUnwind");
+        if recorded == 0 {
+            ctx.class("unwind:empty-accumulator");
+        }
         let good = out.status.code() == Some(0)
             && String::from_utf8_lossy(&out.stdout).contains("UNWOUND");
         if !good && ok {
@@ -432,8 +493,8 @@ fn unwind_probes(ctx: &Ctx, count: usize) -> bool {
                 &Fail::new(
                     "c05:drop-during-unwind",
                     format!(
-                        "accumulator with {} errors dropped while unwinding: child status {:?} (a second panic aborts the process)",
-                        recorded, out.status
+                        "accumulator with {} errors (built in mode {}) dropped while unwinding: child status {:?} (a second panic aborts the process)",
+                        recorded, mode, out.status
                     ),
                 ),
                 serde_json::to_value(&h).unwrap(),
@@ -465,7 +526,7 @@ pub fn run(args: &Args) -> bool {
         let (_, case) = vmodel::ev::load_replay_case(path);
         let h: History = serde_json::from_value(case).expect("bad replay case");
         let ok = if h.end == End::DropDuringUnwind {
-            unwind_probes(&ctx, 9)
+            unwind_probes(&ctx, 45)
         } else {
             run_list(&ctx, vec![h], check)
         };
